@@ -22,17 +22,22 @@ namespace nmtools::index
             result.resize(dim);
         }
 
+        // negative axis counts from the last axis (as in numpy)
+        [[maybe_unused]] auto normalize_axis = [&](auto axis){
+            auto m_axis = (nm_index_t)axis;
+            return (size_t)((m_axis < 0) ? (m_axis + (nm_index_t)dim) : m_axis);
+        };
+
         for (size_t i=0; i<(size_t)dim; i++) {
             if constexpr (meta::is_index_array_v<axes_t>) {
                 auto in_axis = static_cast<bool>(
                     index::count([&](const auto ii){
-                        using common_t = meta::promote_index_t<decltype(ii),size_t>;
-                        return (common_t)ii == (common_t)i;
+                        return normalize_axis(ii) == i;
                     }, axes)
                 );
                 nmtools::get<2>(at(result,i)) = in_axis ? -1 : 1;
             } else if constexpr (meta::is_index_v<axes_t>) {
-                nmtools::get<2>(at(result,i)) = ((size_t)axes == i) ? -1 : 1;
+                nmtools::get<2>(at(result,i)) = (normalize_axis(axes) == i) ? -1 : 1;
             } else if constexpr (is_none_v<axes_t>) {
                 nmtools::get<2>(at(result,i)) = -1;
             }
